@@ -2,7 +2,9 @@
 (* Bounded configuration sets for WarmUp.  One module, several cfg files: the scope operator selects the class. *)
 EXTENDS WarmUp, Json
 
-Cfg(tn, td, p, c) == [tn |-> tn, td |-> td, p |-> p, c |-> c]
+Cfg(tn, td, p, c) == [tn |-> tn, td |-> td, p |-> p, c |-> c, cb |-> 0]
+\* the same rule enforced by the throttling checker
+Thr(S) == { [x EXCEPT !.cb = 1] : x \in S }
 \* T in {1/4, 1/2, 1, 2, 5, 10} x period {1, 2, 5} x cold {0 (default 3), 2, 3, 10}
 MCConfigs == { Cfg(t[1], t[2], p, c) : t \in {<<1, 4>>, <<1, 2>>, <<1, 1>>, <<2, 1>>, <<5, 1>>, <<10, 1>>},
                                        p \in {1, 2, 5}, c \in {0, 2, 3, 10} }
@@ -10,6 +12,12 @@ MCConfigs == { Cfg(t[1], t[2], p, c) : t \in {<<1, 4>>, <<1, 2>>, <<1, 1>>, <<2,
 MCConfigsBig == { Cfg(t[1], t[2], p, c) : t \in {<<0, 1>>, <<1, 4>>, <<1, 2>>, <<3, 4>>, <<1, 1>>, <<3, 2>>, <<2, 1>>, <<5, 2>>, <<3, 1>>,
                                                 <<4, 1>>, <<5, 1>>, <<6, 1>>, <<7, 1>>, <<10, 1>>, <<12, 1>>, <<20, 1>>},
                                           p \in {1, 2, 3, 5, 10}, c \in {0, 2, 3, 4, 5, 10} }
+
+\* both control behaviours (the envelope invariants are stated for either)
+MCConfigs2    == MCConfigs \cup Thr(MCConfigs)
+MCConfigsBig2 == MCConfigsBig \cup Thr(MCConfigsBig)
+\* throttling rules only (mutant run)
+MCConfigsThr  == Thr(MCConfigs)
 
 ScopeHealthy(c)      == Healthy(c)
 ScopeDegenerate(c)   == Degenerate(c)
@@ -25,6 +33,8 @@ MCConfigsLead == MCConfigs \cup { Cfg(6, 1, 1, 10), Cfg(8, 1, 1, 10), Cfg(5, 1, 
 \* leaves the envelope prints the demand history that leads to it and the clauses it breaks.  The check forces these
 \* histories on the real code (a spec-level counterexample is a lead, not a verdict).
 \* (only clauses with an observable consequence: an undefined or out-of-range threshold shows as an admission count)
+\* (MCConfigsLead holds reject rules only: a throttling history is a relation - several admission counts per second - so a
+\* history that leads to a broken clause in the model need not be the one the real code takes)
 Broken == (IF AdmittedLeT THEN << >> ELSE <<"AdmittedLeT">>) \o (IF ColdAfterIdleObs THEN << >> ELSE <<"ColdAfterIdle">>)
           \o (IF WarmAfterSat THEN << >> ELSE <<"WarmAfterSat">>) \o (IF NoStarvation THEN << >> ELSE <<"NoStarvation">>)
 Lead == Broken = << >> \/ PrintT("LEAD " \o ToJson([h |-> h, broken |-> Broken, stuck |-> last.stuck, undef |-> ~Defined(last.al)]))
